@@ -341,6 +341,7 @@ type workerSummary struct {
 	DirtyRuns    int              `json:"dirty_runs"`
 	StoppedEarly string           `json:"stopped_early"`
 	Race         bool             `json:"race_build"`
+	Complete     bool             `json:"complete"`
 }
 
 type scenarioInfo struct {
@@ -427,6 +428,7 @@ type workerResult struct {
 	stderr   string
 	summary  *workerSummary
 	lastRun  int64
+	started  int // runs announced on stdout
 	outDir   string
 	crashed  bool
 	watchdog bool
@@ -452,6 +454,7 @@ func runWorker(bin string, env []string, outDir string, idx int) *workerResult {
 		if strings.HasPrefix(line, "R ") {
 			if n, err := strconv.ParseInt(strings.TrimSpace(line[2:]), 10, 64); err == nil {
 				r.lastRun = n
+				r.started++
 			}
 		}
 	}
@@ -463,7 +466,9 @@ func runWorker(bin string, env []string, outDir string, idx int) *workerResult {
 	}
 	if r.exit == 3 && strings.Contains(r.stderr, "WATCHDOG") {
 		r.watchdog = true
-	} else if r.summary == nil {
+	} else if r.summary == nil || !r.summary.Complete {
+		// (a worker checkpoints its summary as it goes: a partial one from a
+		// process that died still counts its runs and failures)
 		r.crashed = true
 	}
 	return r
@@ -598,7 +603,7 @@ func runBatch(bin string, race bool, prop string, seed uint64, tc tierCfg, outRo
 	bo := &batchOutcome{race: race, traceSet: map[uint64]struct{}{}, caseSet: map[uint64]struct{}{}}
 	t0 := time.Now()
 	var wg sync.WaitGroup
-	res := make([]*workerResult, tc.workers)
+	res := make([][]*workerResult, tc.workers)
 	for w := 0; w < tc.workers; w++ {
 		wg.Add(1)
 		go func(w int) {
@@ -609,17 +614,45 @@ func runBatch(bin string, race bool, prop string, seed uint64, tc tierCfg, outRo
 			if race {
 				start += 1_000_000_000 - 1_000_000_000%uint64(tc.workers)
 			}
-			e := append(append([]string{}, env...), fmt.Sprintf("VERIF_START=%d", start))
-			res[w] = runWorker(bin, e, outDir, w)
+			// A worker that dies (race detector with halt_on_error, a fatal
+			// error in b6) is attributed to its last run and replaced by a
+			// fresh process that continues after that run, so that one crash
+			// class - a known finding, say - does not end the exploration.
+			deadline := time.Now().Add(time.Duration(tc.seconds) * time.Second)
+			for inc := 0; ; inc++ {
+				remaining := int(time.Until(deadline).Seconds())
+				if inc > 0 && remaining < 2 {
+					break
+				}
+				e := append(append([]string{}, env...), fmt.Sprintf("VERIF_START=%d", start))
+				if inc > 0 {
+					e = append(e, fmt.Sprintf("VERIF_TIME_S=%d", remaining))
+				}
+				r := runWorker(bin, e, outDir, w+inc*tc.workers)
+				res[w] = append(res[w], r)
+				if !r.crashed || r.lastRun < 0 || inc >= 300 {
+					break
+				}
+				start = uint64(r.lastRun) + uint64(tc.workers)
+			}
 		}(w)
 	}
 	wg.Wait()
 	bo.wall = time.Since(t0).Seconds()
-	bo.results = res
-	for _, r := range res {
+	for _, rs := range res {
+		bo.results = append(bo.results, rs...)
+	}
+	for _, r := range bo.results {
 		if r.summary != nil {
-			bo.runs += r.summary.Runs
 			bo.nontrivial += r.summary.Nontrivial
+		}
+		switch {
+		case r.crashed && r.started > 0:
+			// the process died in its last announced run; the ones before
+			// completed (its last checkpoint may be older than that)
+			bo.runs += r.started - 1
+		case r.summary != nil:
+			bo.runs += r.summary.Runs
 		}
 		readHashes(filepath.Join(outDir, fmt.Sprintf("worker-%d.trace", r.idx)), bo.traceSet)
 		readHashes(filepath.Join(outDir, fmt.Sprintf("worker-%d.case", r.idx)), bo.caseSet)
